@@ -762,6 +762,12 @@ class SimpleStreamUpdater(StreamUpdater):
             raise TypeError("replication_nr is not an int")
         if replication_nr < 0:
             raise ValueError("replication_nr < 0")
+        # the built-in hash() of a str differs between interpreter processes
+        # (hash randomisation); use a hash of the characters that is the same
+        # in every process, on every platform and in every run
+        name_hash = 0
+        for ch in stream_id:
+            name_hash = (31 * name_hash + ord(ch)) & 0xFFFFFFFF
         stream.set_seed(stream.original_seed() + replication_nr * 
-                        (1_000_037 + hash(stream_id)))
+                        (1_000_037 + name_hash))
 
